@@ -199,27 +199,39 @@ def r4(run, db):
                 for r in f.origins(x.args[1], through=lambda cc: 0 if cc.matches(r"get_cell$|Deref>::deref$|Clone>::clone$") else None):
                     if r["k"] == "call":
                         srcs.add(r["call"].name.split("::")[-1])
-            # ... or collected from an iterator whose mapping closure yields them
-            thr_c = lambda cc: 0 if cc.matches(r"get_cell$|Deref>::deref$|Clone>::clone$|Option::<T>::(map|cloned|as_ref)$") else None
-            for r in f.origins(c.args[2] if len(c.args) > 2 else c.args[-1], through=lambda cc: 0 if cc.matches(r"Iterator::collect$|IntoIterator>::into_iter$|IntoIterator::into_iter$") else None):
-                if r["k"] == "call" and r["call"].matches(r"Iterator::(filter_map|map|flat_map)$"):
-                    for r2 in f.origins(r["call"].args[1]):
-                        if r2["k"] == "agg" and r2["stmt"]["rv"].get("kind") == "closure":
-                            g = db.fns.get(r2["stmt"]["rv"]["def"])
-                            if g is None:
-                                continue
-                            stack = [x for x in g.origins([0, []], through=thr_c)]
-                            seen_ = 0
-                            while stack and seen_ < 40:
-                                x = stack.pop()
-                                seen_ += 1
-                                if x["k"] == "call":
-                                    srcs.add(x["call"].name.split("::")[-1])
-                                    if x["call"].matches(r"Option::<T>::(map|and_then)$") and len(x["call"].args) > 1:
-                                        srcs.discard(x["call"].name.split("::")[-1])
-                                        stack += g.origins(x["call"].args[0], through=thr_c)
-                                elif x["k"] == "agg" and x["stmt"]["rv"].get("variant") == "Some":
-                                    stack += g.origins(x["stmt"]["rv"]["ops"][0], through=thr_c)
+            # ... or collected from an iterator chain whose mapping closures yield them
+            thr_c = lambda cc: 0 if cc.matches(r"get_cell$|Deref>::deref$|Clone>::clone$|Option::<T>::(cloned|as_ref)$") else None
+            thr_it = lambda cc: 0 if cc.matches(r"Iterator::(collect|filter|inspect|rev|cloned|copied|peekable|fuse)$|IntoIterator>::into_iter$|IntoIterator::into_iter$") else None
+            def item_sources(body, op, depth=0):
+                out = set()
+                if depth > 5:
+                    return out
+                for r in body.origins(op, through=thr_it):
+                    if not (r["k"] == "call" and r["call"].matches(r"Iterator::(filter_map|map|flat_map)$") and len(r["call"].args) > 1):
+                        continue
+                    ad = r["call"]
+                    for r2 in body.origins(ad.args[1]):
+                        if not (r2["k"] == "agg" and r2["stmt"]["rv"].get("kind") == "closure"):
+                            continue
+                        g = db.fns.get(r2["stmt"]["rv"]["def"])
+                        if g is None:
+                            continue
+                        stack = list(g.origins([0, []], through=thr_c))
+                        seen_ = 0
+                        while stack and seen_ < 40:
+                            x = stack.pop()
+                            seen_ += 1
+                            if x["k"] == "call" and x["call"].matches(r"Option::<T>::(map|and_then)$") and len(x["call"].args) > 1:
+                                stack += g.origins(x["call"].args[0], through=thr_c)
+                            elif x["k"] == "call":
+                                out.add(x["call"].name.split("::")[-1])
+                            elif x["k"] == "agg" and x["stmt"]["rv"].get("variant") == "Some":
+                                stack += g.origins(x["stmt"]["rv"]["ops"][0], through=thr_c)
+                            elif x["k"] == "arg" and x.get("local") == 2:
+                                # the closure passes on (part of) its item: what did the iterator upstream yield?
+                                out |= item_sources(body, ad.args[0], depth + 1)
+                return out
+            srcs |= item_sources(f, c.args[2] if len(c.args) > 2 else c.args[-1])
             run.check(bool(srcs) and srcs <= {"poll", "get", "get_or_spawn_remote_actor", "{closure#0}"} or any("get" in s_ or "closure" in s_ or "poll" in s_ for s_ in srcs), arm + "|cells-from-proxies", "the cells (un)enrolled are this session's proxies (%s)" % sorted(srcs), "cells come from %s" % sorted(srcs), c.where())
     # outgoing join/leave frames carry the event's scope/group
     sv = [g for g in db.crate_fns(RC) if re.search(r"NodeSession as ractor::Actor>::handle_supervisor_evt::\{closure#0\}$", g.id)]
